@@ -331,6 +331,9 @@ func GenValue(t *rapid.T, typ int, n int) []byte {
 		binary.BigEndian.PutUint64(b, bits)
 		return b
 	}
+	if typ == TIPv6 && n == 16 && rapid.Bool().Draw(t, "v6shape") {
+		return genV6(t, "v6")
+	}
 	// integers, dates, addresses: boundary-biased octets
 	kind := rapid.IntRange(0, 5).Draw(t, "vkind")
 	b := make([]byte, n)
